@@ -947,3 +947,36 @@ fn c04_capacity_bh2_short_norm_t40() { c04_capacity_bh2::<64, 32, true, 40>() }
 #[kani::proof]
 #[kani::unwind(66)]
 fn c04_capacity_bh2_short_raw_t40() { c04_capacity_bh2::<64, 32, false, 40>() }
+
+// ---- C14: unchecked constructors agree with the checked ones under their contracts ----
+#[cfg(feature = "unchecked")]
+#[allow(unsafe_code)]
+fn c14_unchecked_constructors<const S1: usize, const S2: usize, const NORM: bool>(m: usize)
+where
+    BlockHashSize<S1>: ConstrainedBlockHashSize,
+    BlockHashSize<S2>: ConstrainedBlockHashSize,
+    BlockHashSizes<S1, S2>: ConstrainedBlockHashSizes,
+{
+    let src = any_hash::<S1, S2, NORM>(m, m);
+    let (l1, l2) = (src.len_blockhash1 as usize, src.len_blockhash2 as usize);
+    let bs = block_size::from_log(src.log_blocksize).unwrap();
+    unsafe {
+        let a = <FuzzyHashData<S1, S2, NORM>>::new_from_internals_raw_unchecked(src.log_blocksize, &src.blockhash1, &src.blockhash2, src.len_blockhash1, src.len_blockhash2);
+        let mut b = dirty_hash::<S1, S2, NORM>();
+        b.init_from_internals_raw_unchecked(src.log_blocksize, &src.blockhash1, &src.blockhash2, src.len_blockhash1, src.len_blockhash2);
+        let c = <FuzzyHashData<S1, S2, NORM>>::new_from_internals_near_raw_unchecked(src.log_blocksize, &src.blockhash1[..l1], &src.blockhash2[..l2]);
+        let d = <FuzzyHashData<S1, S2, NORM>>::new_from_internals_unchecked(bs, &src.blockhash1[..l1], &src.blockhash2[..l2]);
+        assert!(same_obj(&a, &src) && same_obj(&b, &src) && same_obj(&c, &src) && same_obj(&d, &src));
+    }
+    kani::cover!(l1 == m && l2 == m);
+}
+#[cfg(feature = "unchecked")]
+#[allow(unsafe_code)]
+#[kani::proof]
+#[kani::unwind(66)]
+fn c14_unchecked_constructors_short_norm_m8() { c14_unchecked_constructors::<64, 32, true>(8) }
+#[cfg(feature = "unchecked")]
+#[allow(unsafe_code)]
+#[kani::proof]
+#[kani::unwind(66)]
+fn c14_unchecked_constructors_long_raw_m8() { c14_unchecked_constructors::<64, 64, false>(8) }
